@@ -1,0 +1,21 @@
+//go:build verif
+// +build verif
+
+package linker
+
+// Keys of the fault-injection gates in the chunk generators and the per-file
+// printers (only compiled with the "verif" build tag).
+
+func verifFileKey(c *linkerContext, sourceIndex uint32) string {
+	return c.graph.Files[sourceIndex].InputFile.Source.KeyPath.Text
+}
+
+// The key of a chunk is the path of its entry point ("<shared chunk>" plus the
+// working directory for a chunk that is not an entry point).
+func verifChunkKey(c *linkerContext, chunkIndex int) string {
+	chunk := &c.chunks[chunkIndex]
+	if chunk.isEntryPoint {
+		return c.graph.Files[chunk.sourceIndex].InputFile.Source.KeyPath.Text
+	}
+	return "<shared chunk>" + c.fs.Cwd()
+}
